@@ -82,3 +82,31 @@ def depth1_schedules(n_actors, decisions, order=None, stride=1):
     for i in range(1, decisions + 1, stride):
         for j in range(n_actors):
             yield {"order": order, "preempt": [[i, j]]}
+
+
+@contextlib.contextmanager
+def no_exclusion_lock():
+    """A distributed lock that grants everyone and always reports 'held' (the statement of C08: 'even if the
+    lock gives no exclusion at all').  Substituted for the S3 lock providers from the harness."""
+    import datashard.lock_provider as LP
+
+    saved = {}
+    for cls in (LP.S3LockProvider, LP.S3PollingLockProvider):
+        saved[cls] = (cls.acquire, cls.release, cls.is_held)
+
+        def acquire(self):
+            self.is_locked = True
+            return True
+
+        def release(self):
+            self.is_locked = False
+
+        def is_held(self):
+            return True
+
+        cls.acquire, cls.release, cls.is_held = acquire, release, is_held
+    try:
+        yield
+    finally:
+        for cls, (a, r, h) in saved.items():
+            cls.acquire, cls.release, cls.is_held = a, r, h
